@@ -1,12 +1,12 @@
 package rules
 
 import (
-	"golang.org/x/tools/go/ssa"
-	"go/token"
 	"fmt"
 	"go/ast"
 	"go/constant"
+	"go/token"
 	"go/types"
+	"golang.org/x/tools/go/ssa"
 	"sort"
 	"strings"
 
